@@ -327,6 +327,13 @@ def jobs(tier, seed):
     E = {'e|r1': [1, 2, 3, 4, 5]}
     Ei = {'e|r1': [1, 2, 4, 5, 6]}
     F_ = {'f|r1': [2, 4, 6, 8, 10]}
+    M2 = {'e|r1': [1, 2, 3, 4, 5], 'e|r2': [1, 2, 3, 4, 5, 6]}
+    R1 = {'e|r1': [1, 2, 3, 4, 5]}
+    # entries of one matrix on different replica subsets of the same ensemble
+    add('matmul', n=2, nf=2, lays=[M2, R1])
+    add('matmul', n=2, nf=2, lays=[R1, M2, F_], numbers=True)
+    add('inv', n=2, lays=[M2, R1])
+    add('array_mode', lays=[M2, R1])      # same per-replica configuration sets: splitting the expression must not matter
     add('matmul', n=1, nf=2, lays=[E, Ei])
     add('matmul', n=2, nf=2, lays=[E])
     add('matmul', n=2, nf=2, lays=[E, Ei, F_])
